@@ -170,6 +170,7 @@ pub fn run_sweep(args: &Args, mut out: Out) {
     for _ in 0..(4 * nadd) {
         durs.push((r.gen_range(0..200_000), r.gen_range(0..86400)));
     }
+    let mut tod_n = 0u64;
     for y in 1970..=2405i64 {
         if (y - 1970) % 10 == 0 {
             sid += 1;
@@ -180,7 +181,16 @@ pub fn run_sweep(args: &Args, mut out: Out) {
             for day in [1i64, 28, ml] {
                 for (dd, ds) in &durs {
                     let (dd, ds) = (*dd, *ds);
-                    let (h, mi, s) = if ds == 0 { (0, 0, 0) } else { (23, 59, 59) };
+                    // the start's time of day: midnight, the last second, and (two in three) any other time, so that every
+                    // carry (second -> minute -> hour -> day) happens both alone and together with the others
+                    tod_n += 1;
+                    let (h, mi, s) = match tod_n % 6 {
+                        0 => (0, 0, 0),
+                        1 => (23, 59, 59),
+                        2 => (23, 0, 0),
+                        3 => (r.gen_range(1..24), r.gen_range(0..60), 0),
+                        _ => (r.gen_range(0..24), r.gen_range(0..60), r.gen_range(0..60)),
+                    };
                     let start = DateTime { year: y, month: m, day, hour: h, min: mi, sec: s };
                     let res = catch(move || {
                         let o = start + Duration::from_secs((dd * 86400 + ds) as u64);
